@@ -22,7 +22,7 @@ var lDependentPairs = [][2]string{
 // letters that need two earlier ones: every ordered triple of window positions
 var lDependentTriples = [][3]string{{"cA", "iA", "tA"}, {"cA", "iA", "pA"}, {"rC2", "uC2", "xC2"}}
 
-var lTwoTxBlocks = []string{"rC2,xC2", "cA,iA", "cK,kK", "rC2f,tXC1", "xC1,xC3", "vVC1,tVX"}
+var lTwoTxBlocks = []string{"rC2,xC2", "cA,iA", "cK,kK", "rC2f,tXC1", "xC1,xC3", "vVC1,tVX", "rC2f,xD0"}
 
 // the reduced alphabet for ALL pairs of letters at all pairs of positions (thorough tier)
 var lPairLetters = []string{"tVX", "vVC1", "rC2", "rC2f", "xC2", "xC1", "xD0", "s0", "kH"}
